@@ -276,17 +276,33 @@ def rule_r2(chk):
     rets = [n for n in walk_no_nested(fd) if isinstance(n, ast.Return)]
     ok = len(rets) == 1 and unparse(rets[0].value).replace(" ", "") == "(trend_data,gap_data)"
     chk.ob("C14-R2", "series._hp.filter_data[return order]", ok, "returns (trend_data, gap_data)", m.loc(fd))
+    # hpf / hpf_trend / hpf_gap by finite evaluation with a stand-in _data_hpf that returns labelled components
+    from .. import fin
+    consts = fin.module_constants(m)
+    stub = {"_data_hpf": lambda s_, *a_, **k_: ("START", "TREND", "GAP")}
+    helpers = fin.module_funcs(m, dict(stub, type=lambda o: (lambda *a_, **kw: ("series", kw.get("start_date", a_[0] if a_ else None), kw.get("values", a_[1] if len(a_) > 1 else None)))), consts)
+    helpers.update(stub)
     h = m.func("hpf")
-    src = unparse(h).replace(" ", "")
-    ok = ("start_date,trend_data,gap_data=_data_hpf(self,*args,**kwargs)" in src and "trend=type(self)(start_date=start_date,values=trend_data)" in src
-          and "gap=type(self)(start_date=start_date,values=gap_data)" in src and "return(trend,gap)" in src)
-    chk.ob("C14-R2", "series._hp.hpf", ok, "(trend, gap) built from the matching arrays with one start", m.loc(h))
-    t = m.func("Inlay.hpf_trend")
-    ok = "start_date,trend_data,_=_data_hpf(self,*args,**kwargs)" in unparse(t).replace(" ", "") and "self._replace_start_and_values(start_date,trend_data)" in unparse(t).replace(" ", "")
-    chk.ob("C14-R2", "series._hp.Inlay.hpf_trend", ok, "takes position 1 (trend)", m.loc(t))
-    g = m.func("Inlay.hpf_gap")
-    ok = "start_date,_,gap_data=_data_hpf(self,*args,**kwargs)" in unparse(g).replace(" ", "") and "self._replace_start_and_values(start_date,gap_data)" in unparse(g).replace(" ", "")
-    chk.ob("C14-R2", "series._hp.Inlay.hpf_gap", ok, "takes position 2 (gap)", m.loc(g))
+    chk.saw(m, "hpf")
+    try:
+        got = fin.run_function(h, {params(h)[0]: "SELF", (h.args.vararg.arg if h.args.vararg else "args"): (), (h.args.kwarg.arg if h.args.kwarg else "kwargs"): {}}, helpers, consts)
+        want = (("series", "START", "TREND"), ("series", "START", "GAP"))
+        chk.ob("C14-R2", "series._hp.hpf", tuple(got) == want, "(trend, gap) built from the matching arrays with one start" if tuple(got) == want else
+               f"returns {got}; expected (trend, gap) = {want}", m.loc(h), sure=True)
+    except (fin.NotFinite, fin.Raised, TypeError, AttributeError, IndexError) as ex:
+        chk.undecided("C14-R2", "series._hp.hpf", f"not finitely evaluable: {type(ex).__name__}: {ex}", m.loc(h))
+    for q, label, pos in (("Inlay.hpf_trend", "TREND", 1), ("Inlay.hpf_gap", "GAP", 2)):
+        t = m.func(q)
+        chk.saw(m, q)
+        log = []
+        me = fin.FinObj(_replace_start_and_values=lambda *a_, **k_: log.append(a_ + tuple(k_.values())), _replace_data=lambda *a_, **k_: log.append(("keeps its own start",) + a_))
+        try:
+            fin.run_function(t, {params(t)[0]: me, (t.args.vararg.arg if t.args.vararg else "args"): (), (t.args.kwarg.arg if t.args.kwarg else "kwargs"): {}}, helpers, consts)
+            ok = log == [("START", label)]
+            chk.ob("C14-R2", f"series._hp.{q}", ok, f"takes position {pos} ({label.lower()})" if ok else
+                   f"replaces the series by {log}; expected start and values ('START', '{label}') of _data_hpf", m.loc(t), sure=True)
+        except (fin.NotFinite, fin.Raised, TypeError, AttributeError, IndexError) as ex:
+            chk.undecided("C14-R2", f"series._hp.{q}", f"not finitely evaluable: {type(ex).__name__}: {ex}", m.loc(t))
 
 
 def rule_r3(chk):
